@@ -31,7 +31,25 @@ def k_imported_children(case):
     return case["kind"] == "fault" and case["info"]["where"].startswith("child-of-imported-component")
 
 
-KNOWN = {"C04-imported-component-children": k_imported_children}
+def shared_import_sources_with_id(world):
+    """tags of the ImportSource objects of model 0 that carry an id and serve >= 2 imported entities"""
+    m = world[0]
+    users = collections.Counter()
+    for e in list(m.units) + m.all_comps():
+        if e.imp is not None and e.imp[0].id != "":
+            users[e.imp[0].tag] += 1
+    return [t for t, n in users.items() if n >= 2]
+
+
+def k_shared_import_source_id(case):
+    """C04-shared-import-source-id: a VALID world in which an ImportSource with a non-empty id is referenced by >= 2
+    imported entities (one <import id=".."> element with several children) is reported with the duplicated-identifier
+    XML_ID_ATTRIBUTE issue (the model of the current tree predicts it: only the oracle 'valid => 0 issues' fails)"""
+    return case["kind"] == "valid" and bool(shared_import_sources_with_id(case["world"]))
+
+
+KNOWN = {"C04-imported-component-children": k_imported_children,
+         "C04-shared-import-source-id": k_shared_import_source_id}
 
 # ------------------------------------------------------------------------------------------------ directed cases
 
@@ -321,6 +339,13 @@ def evaluate(ctx, cases, drv, mdl, rules, tag, rule_cov, stats, max_report=5):
             fid = None
             for kid, match in KNOWN.items():
                 if match(c) and not any(p.startswith("CORRESPONDENCE") or p.startswith("model driver") or p.startswith("implementation:") for p in problems):
+                    if kid == "C04-shared-import-source-id":
+                        # exactly: one XML_ID_ATTRIBUTE error per shared id-carrying import source, nothing else
+                        want = collections.Counter({("E", str(num_of.get("XML_ID_ATTRIBUTE"))): len(set(
+                            e.imp[0].id for e in list(c["world"][0].units) + c["world"][0].all_comps()
+                            if e.imp is not None and e.imp[0].tag in shared_import_sources_with_id(c["world"])))})
+                        if pi is None or pi[0] != want:
+                            continue
                     fid = kid
             if fid and ctx.known_finding(fid, "%s at %s: %s" % (c["info"]["fault"], c["info"]["where"], problems[0][:160])):
                 stats["known"] += 1
@@ -330,8 +355,9 @@ def evaluate(ctx, cases, drv, mdl, rules, tag, rule_cov, stats, max_report=5):
             pending.append((i, problems, core if (pi is not None and pm is not None) else None, il, ml))
     # which repair of fixes/C04-*.diff is missing from the tree, if the implementation behaves exactly as the model does
     # without it (information for the reader of the violation; it does not change the verdict)
-    variants = [("0111", "C04-reset-order-connected-set"), ("1011", "C04-mathml-qualifier-children"),
-                ("1101", "C04-shared-import-source-id"), ("1110", "C04-id-map-name-pairs"), ("unfixed", "several C04 repairs")]
+    variants = [("0101", "C04-reset-order-connected-set"), ("1001", "C04-mathml-qualifier-children"),
+                ("1100", "C04-id-map-name-pairs"), ("1111", "NONE: it behaves as if C04-shared-import-source-id WERE applied"),
+                ("unfixed", "several C04 repairs")]
     if pending:
         pf = os.path.join(ctx.workdir, tag + ".pending.tokens")
         with open(pf, "w") as f:
@@ -377,7 +403,7 @@ def names_check(ctx, drv, mdl, quick):
             for h in heads[:2]:
                 strs.append(bytes([lead, c]))
                 strs.append(h + bytes([lead, c]))
-    for _ in range(4000 if quick else 60000):
+    for _ in range(4000 if quick else 30000):
         k = r.random()
         if k < 0.5:
             lead = r.randrange(0xE0, 0xF0)
@@ -426,7 +452,7 @@ def run(ctx):
         "xmlParseURI is not modelled: its verdict on an import's href is an input of the model (is_url_ok); generated hrefs are a fixed set whose verdict was measured",
         "doubles: unit exponents are small dyadic rationals and multipliers powers of ten, so the validator's double arithmetic on them is exact (as in C08)",
         "unit compatibility inside validateEquivalenceUnits is C08's model (LC.UnitsDefs.val_equiv), a parameter of the C04 theorems",
-        "the reset-variable-without-parent crash (validator.cpp: validateReset, owned by C09) and the stack exhaustion of updateBaseUnitCount on cyclic units used by connected variables (C01-K3) are never generated",
+        "the stack exhaustion of updateBaseUnitCount on cyclic units used by connected variables (C01-K3) is never generated (cyclic units are not used by connected variables)",
     ]
     build = vf.build_repo("plain")
     drv = vf.compile_driver(build, os.path.join(vf.ROOT, "harness/c04_driver.cpp"))
@@ -459,7 +485,7 @@ def run(ctx):
     ncorpus = len(cases)
 
     # ---- generated
-    n_worlds = 260 if quick else 5200
+    n_worlds = 260 if quick else 2600     # thorough: 15 600 cases (31 200 took 24 min on a loaded machine)
     per_world = 5
     gen = g.Gen(ctx.rng)
     gen.invalid_uris = g.INVALID_URIS
